@@ -7,6 +7,7 @@ import (
 	"archive/tar"
 	"bytes"
 	"compress/gzip"
+	"errors"
 	"fmt"
 	"io"
 	"io/fs"
@@ -319,10 +320,46 @@ func envTarReader(entries []envTarEntry, truncated bool) io.Reader {
 	if truncated && len(b) > 40 {
 		b = b[:len(b)-30]
 	}
-	return bytes.NewReader(b)
+	return &envFailReader{r: bytes.NewReader(b)}
 }
 
-func envWriter() io.Writer { return &envOut }
+type envFailWriter struct{ n int }
+
+func (f *envFailWriter) Write(p []byte) (int, error) {
+	f.n++
+	if envFaultAt > 0 && f.n >= envFaultAt {
+		envFaultHits++
+		return 0, errors.New("injected write fault")
+	}
+	return envOut.Write(p)
+}
+
+type envFailReader struct {
+	r io.Reader
+	n int
+}
+
+func (f *envFailReader) Read(p []byte) (int, error) {
+	f.n++
+	if envFaultAt > 0 && f.n >= envFaultAt {
+		envFaultHits++
+		return 0, errors.New("injected read fault")
+	}
+	if len(p) > 64 {
+		p = p[:64] // small reads: more fault positions
+	}
+	return f.r.Read(p)
+}
+
+var envFaultAt, envFaultHits int
+
+func envWriter() io.Writer { return &envFailWriter{} }
+
+func envFaultRuns() int { return 12 }
+func envFaultArm(run, budget int) {
+	envFaultAt = run
+	envFaultHits = 0
+}
 
 func envTarWritten() []envTarEntry {
 	gz, err := gzip.NewReader(bytes.NewReader(envOut.Bytes()))
@@ -344,6 +381,6 @@ func envTarWritten() []envTarEntry {
 
 func envTarClosed() bool { return true }
 func envSetFaults(n int) { envFaultN = n }
-func envFaultsHit() int  { return 0 }
+func envFaultsHit() int  { return envFaultHits }
 
 func envTarResetOutput() { envOut.Reset() }
